@@ -49,6 +49,7 @@ func init() {
 		Rule: "every list (with repetition, every order) of entry tokens up to the length bound is written as an index file for one chart and run through the real code; " +
 			"phase load+get: main alphabet (13 tokens incl. null / metadata-less / url-less / invalid-version entries) and semver-precedence alphabet (10 tokens), YAML and JSON, " +
 			"each loaded index queried with every query of the phase; phase pull: ChartDownloader.ResolveChartVersion; phase resolve: Manager.Update -> internal/resolver.Resolve -> Chart.lock; " +
+			"urls alphabet (3 versions x 4 spellings of the urls field: URL, key absent, null, empty list) through load+get, pull and resolve in YAML and JSON; " +
 			"phase registry: every descending tag list x every query. distinct = (entry point, alphabet, spelling, entry list); every list is non-trivial (the empty list is the only degenerate one); " +
 			"evaluations = oracle evaluations (one per load, one per (list, query))",
 		Run:    run,
@@ -57,7 +58,7 @@ func init() {
 			"'satisfies the constraint' is defined by Masterminds/semver Constraints.Check (trusted, as DESIGN.md says); precedence, stability, validity and the maximum are computed by this check's own comparator",
 			"a version is valid if it has 1-3 numeric core parts, optional leading v, optional pre-release and build identifiers (Helm's lenient notion); version values are always quoted in the YAML spelling",
 			"ties in precedence (1.2.0 vs 1.2.0+b1 vs 1.2, duplicate versions) may be resolved either way unless the query string is identical to one of them",
-			"dependency resolution and 'helm pull' may ignore entries without a download URL (they cannot be fetched); Get must not",
+			"an entry is downloadable iff its urls list has at least one element: key absent, 'urls: null' and 'urls: []' all mean not downloadable; dependency resolution must lock the highest DOWNLOADABLE satisfying version (error if none), 'helm pull' may refuse when the best match is not downloadable; Get must not filter on urls",
 			"an unparsable constraint is satisfied by nothing, so an error is expected",
 			"internal/resolver cannot be imported from outside helm's module: Resolve is driven through downloader.Manager.Update with SkipUpdate, an in-memory getter and a cached index file; the observed value is dependencies[0].version of the written Chart.lock",
 			"registry.GetTagMatchingVersionOrConstraint is called with tag lists that are valid strict semver in non-increasing precedence, which is what registry.Client.Tags hands it",
@@ -66,6 +67,9 @@ func init() {
 			"load:null-entry", "load:invalid-removed", "load:reordered", "load:all-removed",
 			"get:exact", "get:constraint", "get:stable", "get:error", "get:prerelease-by-constraint", "get:urlless-entry",
 			"pull:url", "pull:error", "resolve:locked", "resolve:error", "resolve:skipped-urlless",
+			"resolve:urlless-top:nokey", "resolve:urlless-top:nullurls", "resolve:urlless-top:emptyurls",
+			"resolve:urlless-only:nokey", "resolve:urlless-only:nullurls", "resolve:urlless-only:emptyurls",
+			"pull:urlless-refused:nokey", "pull:urlless-refused:nullurls", "pull:urlless-refused:emptyurls",
 			"registry:exact", "registry:constraint", "registry:error",
 		},
 	})
@@ -78,6 +82,13 @@ var alphabets = map[string][]string{
 	"main": {"1.0.0", "1.2.0", "1.10.0", "2.0.0", "2.0.0-rc.1", "v1.5.0", "1.2.0+b1", "1.2", "bad", "empty", "null", "nometa", "nourls"},
 	"prec": {"1.0.0", "0.9.0", "1.0.0-rc.1", "1.0.0-beta.11", "1.0.0-beta.2", "1.0.0-beta", "1.0.0-alpha.beta", "1.0.0-alpha.1", "1.0.0-alpha", "1.0.0-1"},
 	"tags": {"1.0.0", "1.2.0", "1.10.0", "2.0.0", "2.0.0-rc.1", "1.2.0+b1", "1.5.0", "1.0.0-rc.1", "1.0.0-beta.11", "1.0.0-beta.2", "1.0.0-alpha.1", "1.0.0-alpha"},
+	// three versions x four spellings of the urls field: a download URL, key
+	// absent (~nokey), "urls: null" (~nullurls), "urls: []" (~emptyurls). The
+	// last three all mean "cannot be downloaded".
+	"urls": {"1.0.0", "1.2.0", "2.0.0",
+		"1.0.0~nokey", "1.2.0~nokey", "2.0.0~nokey",
+		"1.0.0~nullurls", "1.2.0~nullurls", "2.0.0~nullurls",
+		"1.0.0~emptyurls", "1.2.0~emptyurls", "2.0.0~emptyurls"},
 }
 
 var queries = map[string][]string{
@@ -86,6 +97,9 @@ var queries = map[string][]string{
 	"tags": {"*", "", "1.2.0", "1.2.0+b1", "2.0.0-rc.1", "1.0.0-beta.2", "^1.0.0", "~1.2", ">1.0.0 <2.0.0", ">=2.0.0-0", ">=1.0.0-beta <1.0.0-rc.1", "9.9.9", "bad"},
 	// dependency ranges (Chart.yaml): "" is not a range and is left out
 	"resolve": {"*", "1.2.0", "v1.5.0", "1.2.0+b1", "1.2", "3.0.0", "^1.0.0", "~1.2", ">1.0.0 <2.0.0", ">=2.0.0-0", "9.9.9", "bad"},
+	// urls alphabet: Get / pull queries and dependency ranges
+	"urls":         {"*", "", "1.2.0", "^1.0.0", ">1.0.0 <2.0.0", "9.9.9"},
+	"resolve-urls": {"*", "1.2.0", "^1.0.0", ">1.0.0 <2.0.0", "~1.2", "9.9.9"},
 }
 
 const urllessVersion = "3.0.0"
@@ -96,7 +110,8 @@ type fileEntry struct {
 	Null    bool
 	NoMeta  bool
 	Version string
-	URL     bool
+	URL     bool   // has a download URL
+	Shape   string // how the missing URL is spelled: nokey | nullurls | emptyurls ("" when URL)
 }
 
 func mkEntries(list []string) []fileEntry {
@@ -109,11 +124,14 @@ func mkEntries(list []string) []fileEntry {
 		case "nometa":
 			e.NoMeta = true
 		case "nourls":
-			e.Version, e.URL = urllessVersion, false
+			e.Version, e.URL, e.Shape = urllessVersion, false, "nokey"
 		case "empty":
 			e.Version = ""
 		default:
 			e.Version = t
+			if i := strings.IndexByte(t, '~'); i >= 0 && (t[i+1:] == "nokey" || t[i+1:] == "nullurls" || t[i+1:] == "emptyurls") {
+				e.Version, e.URL, e.Shape = t[:i], false, t[i+1:]
+			}
 		}
 		out[i] = e
 	}
@@ -135,8 +153,13 @@ func render(list []string, spelling string) []byte {
 			if !e.NoMeta {
 				m["name"], m["version"] = chartName, e.Version
 			}
-			if e.URL {
+			switch {
+			case e.URL:
 				m["urls"] = []string{entryURL(e.ID)}
+			case e.Shape == "nullurls":
+				m["urls"] = nil
+			case e.Shape == "emptyurls":
+				m["urls"] = []string{}
 			}
 			arr = append(arr, m)
 		}
@@ -159,8 +182,13 @@ func render(list []string, spelling string) []byte {
 		if !e.NoMeta {
 			fmt.Fprintf(&sb, "    name: %s\n    version: %q\n", chartName, e.Version)
 		}
-		if e.URL {
+		switch {
+		case e.URL:
 			fmt.Fprintf(&sb, "    urls:\n    - %s\n", entryURL(e.ID))
+		case e.Shape == "nullurls":
+			sb.WriteString("    urls: null\n")
+		case e.Shape == "emptyurls":
+			sb.WriteString("    urls: []\n")
 		}
 	}
 	return []byte(sb.String())
@@ -172,6 +200,7 @@ type cand struct {
 	ID      string
 	Version string
 	URL     bool
+	Shape   string
 }
 
 // validCands: the entries of the file a correct loader keeps.
@@ -184,7 +213,7 @@ func validCands(list []string) []cand {
 		if _, ok := parseSV(e.Version); !ok {
 			continue
 		}
-		out = append(out, cand{ID: e.ID, Version: e.Version, URL: e.URL})
+		out = append(out, cand{ID: e.ID, Version: e.Version, URL: e.URL, Shape: e.Shape})
 	}
 	return out
 }
@@ -443,15 +472,20 @@ func checkGet(idx *repo.IndexFile, cands []cand, q string) (kind, what, class st
 	return "wrong-pick", fmt.Sprintf("Get(%q) returned %q(%s), expected %s (%s)", q, cv.Version, cv.Digest, versionsOf(cands, acc), how), "VIOLATION"
 }
 
-func writeCache(list []string) {
+// writeCache puts the index into the repository cache; the cache file is
+// always called r-index.yaml, LoadIndexFile sniffs JSON content.
+func writeCache(list []string, spelling string) {
 	s := getScratch()
-	must(os.WriteFile(filepath.Join(s.cache, repoName+"-index.yaml"), render(list, "yaml"), 0o644))
+	if spelling != "json" {
+		spelling = "yaml"
+	}
+	must(os.WriteFile(filepath.Join(s.cache, repoName+"-index.yaml"), render(list, spelling), 0o644))
 }
 
 // checkPull runs ChartDownloader.ResolveChartVersion("r/x", q).
-func checkPull(list []string, cands []cand, q string) (kind, what, class string) {
+func checkPull(list []string, spelling string, cands []cand, q string) (kind, what, class string) {
 	s := getScratch()
-	writeCache(list)
+	writeCache(list, spelling)
 	acc, how := expect(cands, q, true, false)
 	errOK := len(acc) == 0
 	for _, i := range acc {
@@ -494,9 +528,9 @@ func checkPull(list []string, cands []cand, q string) (kind, what, class string)
 
 // checkResolve runs Manager.Update on a parent chart depending on x with
 // range q and reads the lock that resolver.Resolve produced.
-func checkResolve(list []string, cands []cand, q string) (kind, what, class string) {
+func checkResolve(list []string, spelling string, cands []cand, q string) (kind, what, class string) {
 	s := getScratch()
-	writeCache(list)
+	writeCache(list, spelling)
 	acc, how := expect(cands, q, false, true)
 	lockPath := filepath.Join(s.chartDir, "Chart.lock")
 	os.Remove(lockPath)
@@ -620,13 +654,13 @@ func runCase(cs caseSpec) (kind, what string) {
 		}
 		return k, w
 	case "pull":
-		k, w, _ := checkPull(cs.List, validCands(cs.List), cs.Query)
+		k, w, _ := checkPull(cs.List, cs.Spelling, validCands(cs.List), cs.Query)
 		if k != "" {
 			w = pre + w
 		}
 		return k, w
 	case "resolve":
-		k, w, _ := checkResolve(cs.List, validCands(cs.List), cs.Query)
+		k, w, _ := checkResolve(cs.List, cs.Spelling, validCands(cs.List), cs.Query)
 		if k != "" {
 			w = pre + w
 		}
@@ -797,11 +831,13 @@ func has(list []string, tok ...string) bool {
 
 func run(c *core.Ctx) {
 	defer cleanupScratch()
-	type bounds struct{ main, prec, tags, pull, resolve int }
-	b := bounds{main: 4, prec: 4, tags: 4, pull: 3, resolve: 3}
+	type bounds struct{ main, prec, tags, pull, resolve, urls int }
+	b := bounds{main: 4, prec: 4, tags: 4, pull: 3, resolve: 3, urls: 3}
 	if c.Thorough() {
-		b = bounds{main: 5, prec: 5, tags: 6, pull: 4, resolve: 4}
+		b = bounds{main: 5, prec: 5, tags: 6, pull: 4, resolve: 4, urls: 4}
 	}
+	c.Bound("urls alphabet (3 versions x {url, key absent, urls: null, urls: []}), load+get / pull / resolve, YAML and JSON: max entries per chart", fmt.Sprint(b.urls))
+	c.Bound("urls alphabet size; queries get+pull / resolve", fmt.Sprintf("%d; %d/%d", len(alphabets["urls"]), len(queries["urls"]), len(queries["resolve-urls"])))
 	c.Bound("load+get main alphabet: max entries per chart", fmt.Sprint(b.main))
 	c.Bound("load+get precedence alphabet: max entries per chart", fmt.Sprint(b.prec))
 	c.Bound("registry: max tags", fmt.Sprint(b.tags))
@@ -822,13 +858,16 @@ func run(c *core.Ctx) {
 	}
 
 	// Phase 1: LoadIndexFile + Get
-	for _, alpha := range []string{"main", "prec"} {
+	for _, alpha := range []string{"main", "prec", "urls"} {
 		if !only("load") && !only("get") {
 			break
 		}
 		maxLen := b.main
-		if alpha == "prec" {
+		switch alpha {
+		case "prec":
 			maxLen = b.prec
+		case "urls":
+			maxLen = b.urls
 		}
 		enumLists(alphabets[alpha], maxLen, func(list []string) {
 			for _, sp := range []string{"yaml", "json"} {
@@ -900,57 +939,91 @@ func run(c *core.Ctx) {
 	}
 
 	// Phase 2: ChartDownloader.ResolveChartVersion (helm pull r/x --version q)
-	if only("pull") {
-		enumLists(alphabets["main"], b.pull, func(list []string) {
-			if !c.NextMine() {
-				return
-			}
-			c.Distinct("pull|main|" + strings.Join(list, ","))
-			cands := validCands(list)
-			for _, q := range queries["main"] {
-				c.Eval(1)
-				k, _, class := checkPull(list, cands, q)
-				c.Outcome("pull:" + class)
-				if strings.HasPrefix(class, "error:") {
-					c.Floor("pull:error")
-				} else if k == "" {
-					c.Floor("pull:url")
+	type via struct {
+		alpha     string
+		maxLen    int
+		spellings []string
+		queries   []string
+	}
+	for _, v := range []via{{"main", b.pull, []string{"yaml"}, queries["main"]}, {"urls", b.urls, []string{"yaml", "json"}, queries["urls"]}} {
+		if !only("pull") {
+			break
+		}
+		enumLists(alphabets[v.alpha], v.maxLen, func(list []string) {
+			for _, sp := range v.spellings {
+				if !c.NextMine() {
+					continue
 				}
-				if k != "" {
-					report(c, caseSpec{Entry: "pull", Alpha: "main", List: list, Spelling: "yaml", Query: q}, k)
-				} else if len(list) == b.pull {
-					sample(map[string]any{"entry": "ChartDownloader.ResolveChartVersion", "file_entries": append([]string{}, list...), "version": q, "clause": class, "answer": lastAnswer, "agrees_with_oracle": true})
+				c.Distinct("pull|" + v.alpha + "|" + sp + "|" + strings.Join(list, ","))
+				cands := validCands(list)
+				for _, q := range v.queries {
+					c.Eval(1)
+					k, _, class := checkPull(list, sp, cands, q)
+					c.Outcome("pull:" + class)
+					if strings.HasPrefix(class, "error:") {
+						c.Floor("pull:error")
+						if acc, _ := expect(cands, q, true, false); k == "" {
+							for _, i := range acc { // best match exists but cannot be downloaded
+								c.Floor("pull:urlless-refused:" + cands[i].Shape)
+							}
+						}
+					} else if k == "" {
+						c.Floor("pull:url")
+					}
+					if k != "" {
+						report(c, caseSpec{Entry: "pull", Alpha: v.alpha, List: list, Spelling: sp, Query: q}, k)
+					} else if len(list) == v.maxLen {
+						sample(map[string]any{"entry": "ChartDownloader.ResolveChartVersion", "spelling": sp, "file_entries": append([]string{}, list...), "version": q, "clause": class, "answer": lastAnswer, "agrees_with_oracle": true})
+					}
 				}
 			}
 		})
 	}
 
 	// Phase 3: Manager.Update -> resolver.Resolve -> Chart.lock
-	if only("resolve") {
-		enumLists(alphabets["main"], b.resolve, func(list []string) {
-			if !c.NextMine() {
-				return
-			}
-			c.Distinct("resolve|main|" + strings.Join(list, ","))
-			cands := validCands(list)
-			for _, q := range queries["resolve"] {
-				c.Eval(1)
-				k, _, class := checkResolve(list, cands, q)
-				c.Outcome("resolve:" + class)
-				if strings.HasPrefix(class, "error:") {
-					c.Floor("resolve:error")
-				} else if k == "" {
-					c.Floor("resolve:locked")
-					// did a url-less entry outrank the locked one?
-					if accAll, _ := expect(cands, q, false, false); len(accAll) > 0 && !cands[accAll[0]].URL {
-						c.Floor("resolve:skipped-urlless")
-					}
-					if len(list) == b.resolve {
-						sample(map[string]any{"entry": "Manager.Update/resolver.Resolve", "file_entries": append([]string{}, list...), "range": q, "locked": lastAnswer, "agrees_with_oracle": true})
-					}
+	for _, v := range []via{{"main", b.resolve, []string{"yaml"}, queries["resolve"]}, {"urls", b.urls, []string{"yaml", "json"}, queries["resolve-urls"]}} {
+		if !only("resolve") {
+			break
+		}
+		enumLists(alphabets[v.alpha], v.maxLen, func(list []string) {
+			for _, sp := range v.spellings {
+				if !c.NextMine() {
+					continue
 				}
-				if k != "" {
-					report(c, caseSpec{Entry: "resolve", Alpha: "main", List: list, Spelling: "yaml", Query: q}, k)
+				c.Distinct("resolve|" + v.alpha + "|" + sp + "|" + strings.Join(list, ","))
+				cands := validCands(list)
+				for _, q := range v.queries {
+					c.Eval(1)
+					k, _, class := checkResolve(list, sp, cands, q)
+					c.Outcome("resolve:" + class)
+					if k != "" {
+						report(c, caseSpec{Entry: "resolve", Alpha: v.alpha, List: list, Spelling: sp, Query: q}, k)
+						continue
+					}
+					// entries that satisfy the range regardless of downloadability
+					accAll, _ := expect(cands, q, false, false)
+					acc, _ := expect(cands, q, false, true)
+					if strings.HasPrefix(class, "error:") {
+						c.Floor("resolve:error")
+						for _, i := range accAll { // the only matches cannot be downloaded
+							c.Floor("resolve:urlless-only:" + cands[i].Shape)
+						}
+						continue
+					}
+					c.Floor("resolve:locked")
+					if len(accAll) > 0 && len(acc) > 0 {
+						top, _ := parseSV(cands[accAll[0]].Version)
+						got, _ := parseSV(cands[acc[0]].Version)
+						if cmpSV(top, got) > 0 { // undownloadable entries outrank the locked one
+							c.Floor("resolve:skipped-urlless")
+							for _, i := range accAll {
+								c.Floor("resolve:urlless-top:" + cands[i].Shape)
+							}
+						}
+					}
+					if len(list) == v.maxLen {
+						sample(map[string]any{"entry": "Manager.Update/resolver.Resolve", "spelling": sp, "file_entries": append([]string{}, list...), "range": q, "locked": lastAnswer, "agrees_with_oracle": true})
+					}
 				}
 			}
 		})
